@@ -185,9 +185,14 @@ def loop_cut(eng: Any, s: Any, st: State, ctx: Ctx, it: Any = None):
     st_h = st_h.emit(("$yields", f"loop@L{s.lineno}"))
     # one more iteration
     if is_for:
-        st_i, elem, inv = eng.make(st_h, elem_sort, f"item@L{s.lineno}")
-        st_i = st_i.assume(*inv)
-        starts = list(eng.assign(s.target, elem, st_i.with_note(f"L{s.lineno}:iteration"), ctx))
+        # `elem_sort` may be a tuple of sorts: the item is of one of them (the iteration is verified for each)
+        starts = []
+        alts = list(elem_sort) if isinstance(elem_sort, (tuple, list)) else [elem_sort]
+        for ai, es in enumerate(alts):
+            st_i, elem, inv = eng.make(st_h, es, f"item@L{s.lineno}")
+            st_i = st_i.assume(*inv)
+            tag = f"L{s.lineno}:iteration" + (f"#{ai}" if len(alts) > 1 else "")
+            starts += list(eng.assign(s.target, elem, st_i.with_note(tag), ctx))
     else:
         starts = []
         for st_c, c in eng.eval(s.test, st_h, ctx):
